@@ -1,6 +1,8 @@
 /-
 C05 property theorems: spheregroup / groups / friendsoffriends (Model/Fof.lean).
-Helper lemmas live in Lemmas/Fof.lean, FofRen.lean, FofGroups.lean, FofConn.lean, FofMerge.lean; the helper
+Helper lemmas live in Lemmas/Fof.lean, FofRen.lean, FofGroups.lean, FofConn.lean, FofMerge.lean (core Lean) and, for the
+grid section at the end (`spheregroup_fof_grid`), Lemmas/FofGridInit.lean, FofGridCount.lean, FofGridReal.lean (ℝ, on top
+of the grid theorems of C04); the helper
 lemmas that USE the theorems on `groups` (one cell / all cells of the merge) are in the section
 `merge helpers` below, before `merge_refines` and `spheregroup_fof`.
 The theorems audited by harness/props/c05.py are listed there (THEOREMS).
@@ -10,6 +12,10 @@ import PydlVerif.Lemmas.FofRen
 import PydlVerif.Lemmas.FofGroups
 import PydlVerif.Lemmas.FofConn
 import PydlVerif.Lemmas.FofMerge
+import PydlVerif.Lemmas.FofGridReal
+import PydlVerif.Lemmas.FofGridRun
+import PydlVerif.Lemmas.FofGridEdge
+import Mathlib.Tactic.IntervalCases
 namespace PydlVerif.C05
 open PydlVerif.Fof
 
@@ -698,6 +704,229 @@ theorem spheregroup_ngroups (n : Nat) (close : Nat → Nat → Bool) (chunks : L
         (renumber n (friendsRun n close chunks).L (friendsRun n close chunks).inG).cnt := this
     omega
 
+
+/-! ## the grid: CoverFoF discharged for the grid that spheregroup builds (ℝ; on top of C04's grid theorems) -/
+
+section grid
+open PydlVerif.Sphere PydlVerif.FofGrid
+attribute [local instance] realFns fieldScalar fieldTrig
+attribute [-instance] Scalar.instOfNat Scalar.instOfScientific
+
+theorem cget_toArray (l : List Nat) (a : Nat) (ha : a < l.length) : cget l.toArray a = l[a] := by
+  simp [cget, Array.getD_eq_getD_getElem?, ha]
+
+theorem mem_cellLists (nDec : Nat) (nRa : Array Nat) (cl : Tab CellSt) (ch : Array Nat) :
+    ch ∈ cellLists nDec nRa cl ↔ ∃ d r, d < nDec ∧ r < nRa.getD d 0 ∧ ch = (cl.get (d, r)).1.toArray := by
+  simp only [cellLists, List.mem_flatMap, List.mem_map, List.mem_range]
+  constructor
+  · rintro ⟨d, hd, r, hr, e⟩; exact ⟨d, r, hd, hr, e.symm⟩
+  · rintro ⟨d, r, hd, hr, e⟩; exact ⟨d, hd, r, hr, e.symm⟩
+
+/-- the separation in degrees that the statement of the property speaks about -/
+noncomputable def sepDeg (ra dec : Array ℝ) (i j : Nat) : ℝ :=
+  gcircDeg (ra.getD i 0) (dec.getD i 0) (ra.getD j 0) (dec.getD j 0)
+
+/-- **close_is_sep**: the closeness test that `chunkfriendsoffriends` hands to `groups` (coordinates and linking length
+through `np.deg2rad`, `gcirc(units=0) <= distance`) is `separation ≤ linklength` in degrees; it is reflexive for
+ll ≥ 0 and symmetric -/
+theorem close_is_sep (ra dec : Array ℝ) (ll : ℝ) :
+    (∀ i j, closeOf ra dec ll i j = true ↔ sepDeg ra dec i j ≤ ll) ∧
+    (0 ≤ ll → ∀ i, closeOf ra dec ll i i = true) ∧
+    (∀ i j, closeOf ra dec ll i j = closeOf ra dec ll j i) :=
+  ⟨fun i j => closeOf_iff ra dec ll i j, fun h i => closeOf_refl ra dec ll h i, fun i j => closeOf_symm ra dec ll i j⟩
+
+/-- **grid_own_cell_pair** (component 1 of CoverFoF).  On the grid `chunks(ra, dec, ms)` + `assign(ra, dec, ll)` of the
+SAME list (|Dec| < 90, 0 < ll, 4·ll ≤ ms) every point i has a home cell - a cell of the loop
+`for d in range(nDec): for r in range(nRa[d])` - that stores i and every point closer to i than ll.
+(C04 `racover_pair` / `seam_room` / `assign_mem` with list 2 = list 1, marginSize = ll.) -/
+theorem grid_own_cell_pair (ra dec : Array ℝ) (ms ll : ℝ) (g : Grid ℝ) (cl : Tab CellSt)
+    (hg : chunksInit ra dec ms = .ok g) (hcl : assign g ra dec ll = .ok cl)
+    (hdec : ∀ i, i < dec.size → |dec.getD i 0| < 90) (hll : 0 < ll) (hms : 4 * ll ≤ ms)
+    (i : Nat) (hi : i < ra.size) :
+    ∃ ch, ch ∈ cellLists g.nDec g.nRa cl ∧ (∃ a, a < ch.size ∧ cget ch a = i) ∧
+      ∀ k, k < ra.size → sepDeg ra dec i k < ll → ∃ b, b < ch.size ∧ cget ch b = k := by
+  obtain ⟨_, hb, _⟩ := grid_cover ra dec ms ll g cl hg hcl hdec hll hms
+  obtain ⟨d, r, hd, hr, hmem, hall⟩ := hb i hi
+  have hidx : ∀ k, k ∈ (cl.get (d, r)).1 → ∃ b, b < (cl.get (d, r)).1.toArray.size ∧
+      cget (cl.get (d, r)).1.toArray b = k := by
+    intro k hk
+    obtain ⟨b, hb, e⟩ := List.getElem_of_mem hk
+    exact ⟨b, by simpa using hb, by rw [cget_toArray _ b hb, e]⟩
+  exact ⟨_, (mem_cellLists _ _ _ _).2 ⟨d, r, hd, hr, rfl⟩, hidx i hmem, fun k hk hc => hidx k (hall k hk hc)⟩
+
+/-- **grid_no_point_twice** (component 2): whatever ranges `getbounds` returns - also ranges that wrap onto the same
+cell twice at the seam - the `chunkDone` bookkeeping of `assign` enters no point twice into one cell, and every entry
+is a point of the list (C04 `assign_nodup`). -/
+theorem grid_no_point_twice (ra dec : Array ℝ) (ll : ℝ) (g : Grid ℝ) (cl : Tab CellSt)
+    (hcl : assign g ra dec ll = .ok cl) (ch : Array Nat) (hch : ch ∈ cellLists g.nDec g.nRa cl) :
+    (∀ a, a < ch.size → cget ch a < ra.size) ∧
+    (∀ a b, a < ch.size → b < ch.size → cget ch a = cget ch b → a = b) := by
+  obtain ⟨d, r, _, _, rfl⟩ := (mem_cellLists _ _ _ _).1 hch
+  obtain ⟨hnd, hlt⟩ := C04.assign_nodup g ra dec ll cl hcl (d, r)
+  constructor
+  · intro a ha
+    have ha' : a < (cl.get (d, r)).1.length := by simpa using ha
+    rw [cget_toArray _ a ha']
+    exact hlt _ (List.getElem_mem ha')
+  · intro a b ha hb e
+    have ha' : a < (cl.get (d, r)).1.length := by simpa using ha
+    have hb' : b < (cl.get (d, r)).1.length := by simpa using hb
+    rw [cget_toArray _ a ha', cget_toArray _ b hb'] at e
+    exact (List.Nodup.getElem_inj_iff hnd).1 e
+
+/-- **grid_occupancy_9n** (component 3): THE INEQUALITY THE CODE RELIES ON when it allocates `9*nPoints` provisional
+labels ("The largest number of groups you can get … is 9 times the number of targets").  On the grid of spheregroup
+(|Dec| < 90, 0 < ll, 4·ll ≤ ms) `getbounds` returns for every point at most 3 declination bands (a band is exactly ms ≥ 4·ll
+high) and in each at most 3 RA indices (the RA margin is at most half a minimal cell ms/cosDecMin, every cell is at
+least that wide or - band [0,360] - at least the margin wide), so a point is entered into at most 9 cells and the cell
+lists together hold at most 9·n entries. -/
+theorem grid_occupancy_9n (ra dec : Array ℝ) (ms ll : ℝ) (g : Grid ℝ) (cl : Tab CellSt)
+    (hg : chunksInit ra dec ms = .ok g) (hcl : assign g ra dec ll = .ok cl)
+    (hdec : ∀ i, i < dec.size → |dec.getD i 0| < 90) (hll : 0 < ll) (hms : 4 * ll ≤ ms) :
+    (∀ i, i < ra.size → (cellsOfPoint g ra dec ll 0 i).length ≤ 9) ∧
+    ((cellLists g.nDec g.nRa cl).map Array.size).sum ≤ 9 * ra.size := by
+  refine ⟨?_, (grid_cover ra dec ms ll g cl hg hcl hdec hll hms).2.2⟩
+  obtain ⟨_, hsz, hra⟩ := chunksInit_guards ra dec ms g hg
+  have H : OwnGrid g ra dec ms ll :=
+    ⟨chunksInit_facts ra dec ms g
+      (fun i hi => by have := abs_lt.1 (hdec i hi); exact ⟨this.1.le, this.2.le⟩) hg,
+     chunksInit_room ra dec ms g hg, chunksInit_width ra dec ms g hg, hsz, hll, hms, hra,
+     fun i hi => hdec i (by omega)⟩
+  exact fun i hi => H.visit_le9 i hi
+
+/-- **grid_close_pair_shares_cell** (component 1, boundary included): two points of the list whose separation is at most ll -
+also EXACTLY ll - are stored together in some cell.  Below ll: the cell of i (`grid_own_cell_pair`).  At exactly ll the strict
+comparisons of `getbounds` can miss the cell of the one point, but then the cell of the other is reached: the downward loops
+never need strictness (`Lemmas/FofGridEdge.lean`: different declinations ⇒ the RA margin is strict and the higher band reaches
+down; equal declinations ⇒ the larger RA reaches down, or across the seam the smaller RA runs down to index -1). -/
+theorem grid_close_pair_shares_cell (ra dec : Array ℝ) (ms ll : ℝ) (g : Grid ℝ) (cl : Tab CellSt)
+    (hg : chunksInit ra dec ms = .ok g) (hcl : assign g ra dec ll = .ok cl)
+    (hdec : ∀ i, i < dec.size → |dec.getD i 0| < 90) (hll : 0 < ll) (hms : 4 * ll ≤ ms)
+    (i k : Nat) (hi : i < ra.size) (hk : k < ra.size) (hclose : sepDeg ra dec i k ≤ ll) :
+    ∃ ch, ch ∈ cellLists g.nDec g.nRa cl ∧ ∃ a b, a < ch.size ∧ b < ch.size ∧ cget ch a = i ∧ cget ch b = k := by
+  rcases lt_or_eq_of_le hclose with hlt | heq
+  · obtain ⟨ch, hch, ⟨a, ha, ea⟩, hall⟩ := grid_own_cell_pair ra dec ms ll g cl hg hcl hdec hll hms i hi
+    obtain ⟨b, hb, eb⟩ := hall k hk hlt
+    exact ⟨ch, hch, a, b, ha, hb, ea, eb⟩
+  · obtain ⟨d, r, hd, hr, h1, h2⟩ := grid_share_eq ra dec ms ll g cl hg hcl hdec hll hms i k hi hk heq
+    have hidx : ∀ x, x ∈ (cl.get (d, r)).1 → ∃ b, b < (cl.get (d, r)).1.toArray.size ∧
+        cget (cl.get (d, r)).1.toArray b = x := by
+      intro x hx
+      obtain ⟨b, hb, e⟩ := List.getElem_of_mem hx
+      exact ⟨b, by simpa using hb, by rw [cget_toArray _ b hb, e]⟩
+    obtain ⟨a, ha, ea⟩ := hidx i h1
+    obtain ⟨b, hb, eb⟩ := hidx k h2
+    exact ⟨_, (mem_cellLists _ _ _ _).2 ⟨d, r, hd, hr, rfl⟩, a, b, ha, hb, ea, eb⟩
+
+/-- **cover_fof_grid**: `CoverFoF` HOLDS for the cell lists of the grid that spheregroup builds and the closeness relation
+`separation ≤ ll` of the code - no hypothesis beyond |Dec| < 90, 0 < ll, 4·ll ≤ ms. -/
+theorem cover_fof_grid (ra dec : Array ℝ) (ms ll : ℝ) (g : Grid ℝ) (cl : Tab CellSt)
+    (hg : chunksInit ra dec ms = .ok g) (hcl : assign g ra dec ll = .ok cl)
+    (hdec : ∀ i, i < dec.size → |dec.getD i 0| < 90) (hll : 0 < ll) (hms : 4 * ll ≤ ms) :
+    CoverFoF ra.size (closeOf ra dec ll) (cellLists g.nDec g.nRa cl) := by
+  refine ⟨⟨?_, ?_, ?_⟩, ?_, ?_⟩
+  · exact fun ch hch => (grid_no_point_twice ra dec ll g cl hcl ch hch).1
+  · exact fun ch hch => (grid_no_point_twice ra dec ll g cl hcl ch hch).2
+  · exact (grid_occupancy_9n ra dec ms ll g cl hg hcl hdec hll hms).2
+  · intro p hp
+    obtain ⟨ch, hch, ha, _⟩ := grid_own_cell_pair ra dec ms ll g cl hg hcl hdec hll hms p hp
+    exact ⟨ch, hch, ha⟩
+  · intro p q hp hq hc
+    exact grid_close_pair_shares_cell ra dec ms ll g cl hg hcl hdec hll hms p q hp hq
+      ((closeOf_iff ra dec ll p q).1 hc)
+
+/-- the chunk size that spheregroup uses is at least 4 linking lengths -/
+theorem groupChunkSize_ge (ll : ℝ) (chunksize : Option ℝ) : 4 * ll ≤ groupChunkSize ll chunksize := by
+  unfold groupChunkSize
+  simp only [scalar_lit, scalar_sci]
+  push_cast
+  split
+  · split
+    · exact le_refl _
+    · rename_i hc; exact not_lt.1 hc
+  · split
+    · rename_i hc; exact hc.le
+    · exact le_refl _
+
+/-- **spheregroup_fof_grid** - THE STATEMENT OF C05 FOR THE MODEL OF `spheregroup` END TO END, no hypothesis about the
+grid.  `spheregroup ra dec ll chunksize` is the model of the whole function at ℝ (Model/FofGrid.lean: the n = 1 check,
+the chunk size rule, `chunks(ra, dec, cs)`, `assign(ra, dec, ll)`, friendsoffriends on the cells in the loop order of the
+code, renumbering, rebuilt lists, recount).  Whenever it returns, with |Dec| < 90 and 0 < ll (RA in [0,360), two lists of equal length and - over ℝ, where cos 90° = 0 - a grid that is not clipped to a
+pole are guards of the model's constructor, hence consequences of `h`): no loop hangs and no index leaves an array, the
+label table of 9·n entries does not overflow (`ok`); two points get the same group number IFF a chain of points joins them
+in which consecutive separations are ≤ ll (`close_is_sep`: `closeOf` is `sepDeg ≤ ll`); the groups are numbered 0,1,2,… in
+order of their first member; firstgroup/nextgroup are exactly the sorted member lists (walking next from first[c]
+visits every member of c once and ends at -1; -1 beyond the last group); multgroup[c] is the size of group c for every c
+(0 beyond the last group) - for ANY chunksize (the code raises it to 4·ll). -/
+theorem spheregroup_fof_grid (ra dec : Array ℝ) (ll : ℝ) (chunksize : Option ℝ) (o : Out)
+    (h : spheregroup ra dec ll chunksize = .ok o)
+    (hdec : ∀ i, i < dec.size → |dec.getD i 0| < 90) (hll : 0 < ll) :
+    o.ok = true ∧
+    (∀ x y, x < ra.size → y < ra.size → (o.inG.get x = o.inG.get y ↔ Conn (closeOf ra dec ll) ra.size x y)) ∧
+    (∀ x, x < ra.size → ∀ c, c < o.inG.get x → ∃ z, z < x ∧ o.inG.get z = c) ∧
+    IsLists o.inG 0 ra.size o.L ∧
+    (∀ c, walk o.L.next ra.size (o.L.first.get c) = (List.range ra.size).filter (fun x => o.inG.get x = c)) ∧
+    (∀ c, o.mult.get c = ((List.range ra.size).filter (fun x => o.inG.get x = c)).length) := by
+  unfold spheregroup at h
+  simp -zeta only [bind, Except.bind] at h
+  split at h
+  · cases h
+  · rename_i hn
+    obtain ⟨g, hg, h⟩ := bind_ok _ _ _ h
+    obtain ⟨cl, hcl, h⟩ := bind_ok _ _ _ h
+    have hcov := cover_fof_grid ra dec _ ll g cl hg hcl hdec hll (groupChunkSize_ge ll chunksize)
+    obtain ⟨o', ho', r⟩ := spheregroup_fof ra.size (closeOf ra dec ll) _ hn hcov
+      (fun i _ => closeOf_refl ra dec ll hll.le i) (fun a b _ _ => closeOf_symm ra dec ll a b)
+    rw [h] at ho'
+    cases ho'
+    exact r
+
+/-- **spheregroup_returns**: the hypothesis "the model's spheregroup returned" of `spheregroup_fof_grid` is
+satisfiable, in fact it holds for every input whose declinations stay 4.5 chunk sizes away from the poles: two or more
+points, as many declinations as right ascensions, RA in [0,360), 0 < ll, |Dec| ≤ 90 - 4.5·cs (cs = the chunk size
+spheregroup uses, `groupChunkSize`): then no declination edge is clipped to a pole, every band has a positive cosine,
+`chunks.__init__` returns, `assign` accepts the margin (ll < cs) and spheregroup returns. -/
+theorem spheregroup_returns (ra dec : Array ℝ) (ll : ℝ) (chunksize : Option ℝ)
+    (hn : 2 ≤ ra.size) (hsz : ra.size = dec.size)
+    (hra : ∀ i, i < ra.size → 0 ≤ ra.getD i 0 ∧ ra.getD i 0 < 360) (hll : 0 < ll)
+    (hdec : ∀ i, i < dec.size → |dec.getD i 0| ≤ 90 - 9 / 2 * groupChunkSize ll chunksize) :
+    ∃ o, spheregroup ra dec ll chunksize = .ok o := by
+  have hcs := groupChunkSize_ge ll chunksize
+  have hcs0 : 0 < groupChunkSize ll chunksize := by linarith
+  obtain ⟨g, hg⟩ := chunksInit_returns ra dec _ hcs0 (by omega) hsz hra
+    (fun i hi => by have := abs_le.1 (hdec i hi); constructor <;> linarith)
+  have hF := chunksInit_facts ra dec _ g
+    (fun i hi => by have := abs_le.1 (hdec i hi); constructor <;> linarith) hg
+  unfold spheregroup
+  simp -zeta only [bind, Except.bind]
+  have hassign : ∃ cl, assign g ra dec ll = .ok cl := by
+    unfold assign
+    rw [if_neg (by rw [not_not, hF.minSize_eq]; linarith)]
+    exact ⟨_, rfl⟩
+  obtain ⟨cl, hcl⟩ := hassign
+  simp only [if_neg (show ¬ ra.size = 1 by omega), hg, hcl]
+  exact ⟨_, sphereRun_eq _ _ _ (by omega)⟩
+
+/-- **spheregroup_fof_total**: the two together, hypotheses ONLY about the inputs: two or more points, one declination per
+right ascension, RA in [0,360), 0 < ll, every declination at least 4.5 chunk sizes away from the poles.  Then the model of spheregroup returns, and its output is the friends-of-friends partition with
+first-appearance numbering and exact first/next/multiplicity (the conclusions of `spheregroup_fof_grid`). -/
+theorem spheregroup_fof_total (ra dec : Array ℝ) (ll : ℝ) (chunksize : Option ℝ)
+    (hn : 2 ≤ ra.size) (hsz : ra.size = dec.size)
+    (hra : ∀ i, i < ra.size → 0 ≤ ra.getD i 0 ∧ ra.getD i 0 < 360) (hll : 0 < ll)
+    (hdec : ∀ i, i < dec.size → |dec.getD i 0| ≤ 90 - 9 / 2 * groupChunkSize ll chunksize) :
+    ∃ o, spheregroup ra dec ll chunksize = .ok o ∧ o.ok = true ∧
+    (∀ x y, x < ra.size → y < ra.size → (o.inG.get x = o.inG.get y ↔ Conn (closeOf ra dec ll) ra.size x y)) ∧
+    (∀ x, x < ra.size → ∀ c, c < o.inG.get x → ∃ z, z < x ∧ o.inG.get z = c) ∧
+    IsLists o.inG 0 ra.size o.L ∧
+    (∀ c, walk o.L.next ra.size (o.L.first.get c) = (List.range ra.size).filter (fun x => o.inG.get x = c)) ∧
+    (∀ c, o.mult.get c = ((List.range ra.size).filter (fun x => o.inG.get x = c)).length) := by
+  obtain ⟨o, ho⟩ := spheregroup_returns ra dec ll chunksize hn hsz hra hll hdec
+  have hcs : 0 < groupChunkSize ll chunksize := by linarith [groupChunkSize_ge ll chunksize]
+  exact ⟨o, ho, spheregroup_fof_grid ra dec ll chunksize o ho
+    (fun i hi => lt_of_le_of_lt (hdec i hi) (by linarith)) hll⟩
+
+end grid
+
 /-! non-vacuity: concrete inputs meeting the hypotheses -/
 
 /-- labels 0,1,0,2,1 (first-appearance order): the hypotheses of `lists_of_labels` hold with m = 3 -/
@@ -748,5 +977,55 @@ example : CoverFoF 4 (fun a b => a == b || (a + 2 == b) || (b + 2 == a)) [#[0, 2
     rcases key p hp q hq hc with ⟨a, ha, b, hb, h⟩ | ⟨a, ha, b, hb, h⟩
     · exact ⟨#[0, 2, 1], by simp, a, b, ha, hb, h⟩
     · exact ⟨#[1, 3], by simp, a, b, ha, hb, h⟩
+
+section
+open Real PydlVerif.Sphere PydlVerif.FofGrid
+attribute [local instance] realFns fieldScalar fieldTrig
+attribute [-instance] Scalar.instOfNat Scalar.instOfScientific
+
+theorem ex_cs : groupChunkSize (0.1 : ℝ) none = 0.4 := by
+  unfold groupChunkSize
+  simp only [scalar_lit, scalar_sci]
+  norm_num
+
+/-- three points on the meridian RA = 10° at Dec 5°, 5.05°, 6°, linking length 0.1° (chunk size 0.4°): every hypothesis of
+`spheregroup_fof_grid` holds (the model returns by `spheregroup_returns`; the separations are 0.05°, 1°, 0.95°), and the
+theorem puts the first two points into one group -/
+example : ∃ o, spheregroup (#[10, 10, 10] : Array ℝ) #[5, 5.05, 6] 0.1 none = .ok o ∧ o.ok = true ∧
+    o.inG.get 0 = o.inG.get 1 := by
+  have hra : ∀ i, i < (#[10, 10, 10] : Array ℝ).size →
+      0 ≤ (#[10, 10, 10] : Array ℝ).getD i 0 ∧ (#[10, 10, 10] : Array ℝ).getD i 0 < 360 := by
+    intro i hi
+    have : i < 3 := hi
+    interval_cases i <;> norm_num [Array.getD]
+  have hdec : ∀ i, i < (#[5, 5.05, 6] : Array ℝ).size →
+      |(#[5, 5.05, 6] : Array ℝ).getD i 0| ≤ 90 - 9 / 2 * groupChunkSize (0.1 : ℝ) none := by
+    intro i hi
+    have : i < 3 := hi
+    rw [ex_cs]
+    interval_cases i <;> norm_num [Array.getD, abs_le]
+  have hsep : ∀ i j, i < 3 → j < 3 → sepDeg (#[10, 10, 10] : Array ℝ) #[5, 5.05, 6] i j =
+      |(#[5, 5.05, 6] : Array ℝ).getD j 0 - (#[5, 5.05, 6] : Array ℝ).getD i 0| := by
+    intro i j hi hj
+    unfold sepDeg
+    have e : ∀ k, k < 3 → (#[10, 10, 10] : Array ℝ).getD k 0 = 10 := by
+      intro k hk; interval_cases k <;> norm_num [Array.getD]
+    rw [e i hi, e j hj]
+    apply gcircDeg_same_ra
+    interval_cases i <;> interval_cases j <;> norm_num [Array.getD, abs_le]
+  obtain ⟨o, ho⟩ := spheregroup_returns (#[10, 10, 10] : Array ℝ) #[5, 5.05, 6] 0.1 none (by show 2 ≤ 3; omega) rfl hra
+    (by norm_num) hdec
+  obtain ⟨r1, r2, _⟩ := spheregroup_fof_grid _ _ _ _ o ho
+    (fun i hi => lt_of_le_of_lt (hdec i hi) (by rw [ex_cs]; norm_num)) (by norm_num)
+  refine ⟨o, ho, r1, ?_⟩
+  refine (r2 0 1 (by show 0 < 3; omega) (by show 1 < 3; omega)).2
+    (Conn.single (by show 0 < 3; omega) (by show 1 < 3; omega) (Or.inl ?_))
+  rw [closeOf_iff]
+  have := hsep 0 1 (by omega) (by omega)
+  unfold sepDeg at this
+  rw [this]
+  norm_num [Array.getD, abs_le]
+
+end
 
 end PydlVerif.C05
